@@ -415,8 +415,10 @@ Section Resume.
   Definition resume (k : skind) (can_truncate : bool) (o : wopts) (roots : list bytes)
              (file : bytes) (faults : list (option N)) : wstate + (err * dev) :=
     let dv0 := mkdev file [] faults in
-    (* ResumableVersion *)
-    match read_header hdrdec default_maxh file with
+    (* ResumableVersion: ReadVersion under the caller's MaxAllowedHeaderSize (repaired: it used to run
+       under the 32 MiB default whatever the caller configured;
+       notes/fixes/C09-resume-version-probe-limit.patch) *)
+    match read_header hdrdec (w_maxh o) file with
     | Err e => inr (e, dv0)
     | Ok (_, ver, _, _) =>
       if negb (((ver =? 1) && w_v1 o) || ((ver =? 2) && negb (w_v1 o))) then inr (EOther, dv0) else
